@@ -25,16 +25,18 @@ import (
 )
 
 type RepoSpec struct {
-	Name     string `json:"name"`
-	URL      string `json:"url"`
-	User     string `json:"user"`
-	Pass     string `json:"pass"`
-	PassAll  bool   `json:"passAll,omitempty"`
-	Chart    string `json:"chart"`              // chart name served by this repository
-	ChartURL string `json:"chartURL"`           // URL as written in the index
-	Redirect string `json:"redirect,omitempty"` // the chart URL answers 302 to this location
-	Variant  string `json:"variant"`            // how ChartURL relates to URL
-	DelayMs  int    `json:"delayMs,omitempty"`
+	Name      string `json:"name"`
+	URL       string `json:"url"`
+	User      string `json:"user"`
+	Pass      string `json:"pass"`
+	PassAll   bool   `json:"passAll,omitempty"`
+	Chart     string `json:"chart"`              // chart name served by this repository
+	ChartURL  string `json:"chartURL"`           // URL as written in the index
+	Redirect  string `json:"redirect,omitempty"` // the chart URL answers 302 to this location
+	Variant   string `json:"variant"`            // how ChartURL relates to URL
+	DelayMs   int    `json:"delayMs,omitempty"`
+	AlsoChart string `json:"alsoChart,omitempty"` // a second index entry: chart name …
+	AlsoURL   string `json:"alsoURL,omitempty"`   // … and its absolute URL (a chart another repository lists too)
 }
 
 type NetSpec struct {
@@ -120,6 +122,10 @@ func setupRepos(n *NetSim, spec *NetSpec) []string {
 		r := &spec.Repos[i]
 		idxURL, _ := repo.ResolveReferenceURL(stripUserinfo(r.URL), "index.yaml")
 		n.Artefacts["index:"+r.Name] = indexYAML(r.Chart, r.ChartURL)
+		if r.AlsoChart != "" {
+			extra := fmt.Sprintf("  %s:\n  - apiVersion: v2\n    name: %s\n    version: 1.0.0\n    urls:\n    - %q\ngenerated:", r.AlsoChart, r.AlsoChart, r.AlsoURL)
+			n.Artefacts["index:"+r.Name] = []byte(strings.Replace(string(n.Artefacts["index:"+r.Name]), "generated:", extra, 1))
+		}
 		n.Routes[routeKey(idxURL)] = &Route{Artefact: "index:" + r.Name, DelayMs: r.DelayMs}
 		abs, err := repo.ResolveReferenceURL(stripUserinfo(r.URL), r.ChartURL)
 		if err != nil {
@@ -229,6 +235,21 @@ func ExecuteC19(t *testing.T, plan *Plan) *RunResult {
 			os.Chdir(dir)
 			_, opErr = cpo.LocateChart(r0.Chart, settings)
 			os.Chdir(wd)
+		case "pull":
+			// helm pull --repo URL --username … CHART
+			getter.VerifSetDefaultTransport(n.Transport)
+			defer getter.VerifSetDefaultTransport(nil)
+			cfg, cache := writeRepoFiles(dir, n, &NetSpec{}, false)
+			settings := cli.New()
+			settings.RepositoryConfig = cfg
+			settings.RepositoryCache = cache
+			settings.PluginsDirectory = filepath.Join(dir, "no-plugins")
+			pl := action.NewPull(action.WithConfig(&action.Configuration{}))
+			pl.Settings = settings
+			pl.RepoURL, pl.Username, pl.Password, pl.PassCredentialsAll, pl.Version = r0.URL, r0.User, r0.Pass, r0.PassAll, "1.0.0"
+			pl.DestDir = filepath.Join(dir, "dest")
+			os.MkdirAll(pl.DestDir, 0o755)
+			_, opErr = pl.Run(r0.Chart)
 		case "manager":
 			cfg, cache := writeRepoFiles(dir, n, spec, false)
 			cdir := filepath.Join(dir, "parent")
@@ -335,7 +356,7 @@ var c19Hosts = []string{"repo1.example.com", "charts.corp.example", "r.test"}
 func genC19(seed, index uint64, tier string) *Plan {
 	g := NewGen(seed, index, 19)
 	p := &Plan{Check: "C19", Seed: seed, Index: index, Backend: "none"}
-	spec := &NetSpec{Path: g.Pick("getter", "dl-ref", "dl-url", "locate", "manager")}
+	spec := &NetSpec{Path: g.Pick("getter", "dl-ref", "dl-url", "locate", "manager", "pull")}
 	nrepos := 1
 	if spec.Path == "manager" {
 		nrepos = 1 + g.N(3)
@@ -418,6 +439,20 @@ func genC19(seed, index uint64, tier string) *Plan {
 			}
 		}
 		spec.Repos = append(spec.Repos, r)
+	}
+	if spec.Path == "manager" && len(spec.Repos) >= 2 && g.Chance(0.15) {
+		// a public repository without credentials (listed first) and a private one whose index points at an archive on the
+		// public repository's origin, which the public index lists as well: the archive has two "owners"
+		pub, priv := &spec.Repos[0], &spec.Repos[1]
+		pub.User, pub.Pass, pub.PassAll = "", "", false
+		if pu, err := url.Parse(pub.URL); err == nil {
+			pu.User = nil
+			pub.URL = pu.String()
+			priv.ChartURL = pu.Scheme + "://" + pu.Host + "/shared/" + priv.Chart + "-1.0.0.tgz"
+			priv.Variant = "abs-on-credential-less-repository-that-lists-it-too"
+			priv.Redirect = ""
+			pub.AlsoChart, pub.AlsoURL = priv.Chart, priv.ChartURL
+		}
 	}
 	spec.Verify = g.Chance(0.4)
 	p.Net = spec
